@@ -37,6 +37,11 @@ fn main() {
             let n: u64 = args.get(3).and_then(|s| s.parse().ok()).unwrap_or(10);
             conc::run_iter_writers(seed, n, &mut out);
         }
+        "stall" => {
+            let seed: u64 = args.get(2).and_then(|s| s.parse().ok()).unwrap_or(1);
+            let n: u64 = args.get(3).and_then(|s| s.parse().ok()).unwrap_or(10);
+            conc::run_stall(seed, n, &mut out);
+        }
         "gen" => {
             if args.len() < 6 {
                 usage();
